@@ -11,7 +11,9 @@
 static CC_PQueue *pq;
 static int cmp_mode;   /* 0 = numeric, 1 = v % 10, 2 = clamped 64-bit difference */
 static int sparse;     /* obs=sparse: no content sweep after an operation, only on `observe` */
-static void shim_reset(void) { pq = NULL; cmp_mode = 0; sparse = 0; }
+static int quiet;      /* phys=quiet: the buffer is printed as a checksum (FNV-1a 64 of the list text), the full dump on `observe` */
+static int observing;
+static void shim_reset(void) { pq = NULL; cmp_mode = 0; sparse = 0; quiet = 0; }
 
 static unsigned long long key_of(unsigned long long v) { return cmp_mode == 1 ? v % 10 : v; }
 static int cmp_fn(const void *a, const void *b) {
@@ -41,7 +43,19 @@ static int have_out; static unsigned long long out_val;
 static void phys(void) {
     if (!pq) { o("-"); return; }
     o("size=%zu cap=%zu ", pq->size, pq->capacity);
-    O_LIST("buf"); for (size_t i = 0; i < pq->size; i++) o_item(VAL(pq->buffer[i])); o_end();
+    if (quiet && !observing) {
+        unsigned long long h = 14695981039346656037ULL; char t[24];
+        for (size_t i = 0; i < pq->size; i++) {
+            int k = snprintf(t, sizeof t, i ? ",%llu" : "%llu", VAL(pq->buffer[i]));
+            for (int j = 0; j < k; j++) { h ^= (unsigned char)t[j]; h *= 1099511628211ULL; }
+        }
+        o("buf=#%llu", h);
+    } else {
+        /* in a quiet session the dump printed by `observe` has its own key: the runner's multiset hook
+           follows `buf=[...]` from one operation to the next and must not compare dumps that are
+           hundreds of operations apart */
+        O_LIST(quiet ? "bufdump" : "buf"); for (size_t i = 0; i < pq->size; i++) o_item(VAL(pq->buffer[i])); o_end();
+    }
     if (have_out) o(" out=%llu", out_val);
     /* L2 walkers */
     if (block_size(pq->buffer) < pq->capacity * sizeof(void *)) o(" WALK=buf-block-too-small");
@@ -60,6 +74,7 @@ static void do_op(Cmd *c) {
         pq = NULL;
         cmp_mode = !strcmp(kv_str(c, "cmp", "num"), "mod") ? 1 : !strcmp(kv_str(c, "cmp", "num"), "diff") ? 2 : 0;
         sparse = !strcmp(kv_str(c, "obs", "full"), "sparse");
+        quiet = !strcmp(kv_str(c, "phys", "full"), "quiet");
         enum cc_stat st;
         if (is_op(c, "new")) {
             CC_PQueueConf conf; cc_pqueue_conf_init(&conf, cmp_fn);
@@ -72,7 +87,7 @@ static void do_op(Cmd *c) {
         o_stat(st); o(" ");
     } else if (!pq) { o("st=- nosession"); o_sep(); o("-"); return;
     } else if (is_op(c, "observe")) {
-        o("st=- "); obs_sweep(); o_sep(); phys(); return;
+        o("st=- "); obs_sweep(); o_sep(); observing = 1; phys(); observing = 0; return;
     } else if (is_op(c, "push")) {
         enum cc_stat st = cc_pqueue_push(pq, PTR(pos_u64(c, 0)));
         o_stat(st); o(" ");
